@@ -7,7 +7,7 @@ pid,mk,res,needs=sys.argv[1:5]
 notes=sys.argv[5] if len(sys.argv)>5 and not sys.argv[5].startswith('--') else ''
 pre=os.environ.get('SEEDPREFIX','seed')
 src='/tmp/%s-%s/out/%s'%(pre,pid,mk)
-name=mk if pre=='seed' else {'s3':'w3','s4':'w4','s5':'w5','s6':'w6'}.get(pre,'w2')+mk
+name=mk if pre=='seed' else {'s3':'w3','s4':'w4','s5':'w5','s6':'w6','s7':'w7'}.get(pre,'w2')+mk
 patch=os.path.join(src,'patch.diff')
 if '--patch' in sys.argv: patch=sys.argv[sys.argv.index('--patch')+1]
 dst=os.path.join(ROOT,'seeded','%s-%s'%(pid,name)); os.makedirs(dst,exist_ok=True)
